@@ -1,9 +1,10 @@
 """C09 — Compile-time constants keep their exact Python values (DESIGN 7/C09)."""
 import json, os, re, struct, sys
 import cybuild
+from props import C09_fold
 
 TITLE = "Compile-time constants keep their exact Python values"
-EXTRACTS = ["Consts", "ConstNames"]
+EXTRACTS = ["Consts", "ConstNames", "Fold"]
 
 # ---- switches between the code as it is and the repaired code (proposed_fixes/C09-*.diff) ----
 # KEY_FX / ABS_THRESHOLD / NEG_REPAIRED: repairs that are in the tree (92db38a9b, 02095f761); _REPAIRED=0 only
@@ -29,6 +30,16 @@ RULE = ("(a) direct calls: generated integer literal texts of every base/case/un
         "unique_const_cname / generate_num_constants on a bare GlobalState, the emitted #defines and "
         "initialisers interpreted (last #define wins). (b) generated modules whose functions "
         "return lists of constant expressions, compared by type+bits with the same text run by CPython. "
+        "(c) one generated module (module level, an untyped function, a function with C-typed factors, a function "
+        "never called for expressions CPython rejects): expression trees of the fold model's grammar -- tuple/list "
+        "displays, repetition by every kind of factor (<= 0, 1, > 1, bool, run-time Python / C integer, non-number) on "
+        "either side, nested products (merged / dropped / kept factors), starred literals with and without factor at "
+        "every position and nested, '==' / 'or' / conditional expressions consuming them -- whose tree right after "
+        "the ConstantFolding stage (node kinds, args, mult_factor, constant_result) is compared with the model and "
+        "whose compiled value with CPython's and the model's; plus operator expressions over literal constants "
+        "(arithmetic, shifts, comparisons and chains, in / not in, and / or / not, conditional expressions, "
+        "slices / indices of constant sequences and strings, string repetition and %-formatting, set / dict displays "
+        "with unpacking, starred call arguments) compared with CPython type-exactly. "
         "distinct by input text / node-pair / expression; non-trivial = valid literal or key-equal pair or "
         "folded expression")
 EXPLANATION = ("theorems: str_to_number returns CPython's literal value on every scanner-stripped literal "
@@ -42,11 +53,19 @@ EXPLANATION = ("theorems: str_to_number returns CPython's literal value on every
                "unique_const_cname calls (new_num_const_cname: both sides of the 42-character abbreviation, "
                "int/long/float, negative), the uniqueness loop terminates with a fresh name, and every pooled "
                "int constant resolves through its #define and slot initialiser (generate_num_constants) to its "
-               "own value; constant folding of int/bool operands re-reads to Python's value and class. "
+               "own value; constant folding of int/bool operands re-reads to Python's value and class; "
+               "ConstantFolding on sequence displays (Model/M_Fold.v: visit_SequenceNode, visit_MulNode, "
+               "_calculate_constant_seq, '*' in visit_BinopNode, '==' / 'or' / conditional-expression consumers): for "
+               "every display tree, every integer / bool / run-time factor and every environment the folded tree "
+               "computes CPython's value (code as it is: display-only expressions; with the proposed repair: all), the "
+               "stored constant results are the run-time values (repaired), refuted for the code as it is "
+               "(multiplied_sequence_stale_constant) and for starred-literal inlining without the mult_factor test. "
                "partial: float literals/folding and the scanner/parser path are only run differentially "
                "against CPython, not proved; frozenset keys of string arguments are not modelled; float slots "
                "of the number table are only compared textually (value code).")
-TRUSTED = ["Gallina definition of CPython int(str, base) (PyLong_FromString) incl. the 4300-digit limit; tied to "
+TRUSTED = ["Gallina definition of Python's tuple/list display, starred item, sequence repetition, ==, truth value "
+           "(M_Fold.eval); tied to CPython on every generated model expression",
+           "Gallina definition of CPython int(str, base) (PyLong_FromString) incl. the 4300-digit limit; tied to "
            "CPython's int() on every generated text",
            "Gallina definition of str(int)/hex(int); tied to CPython on every generated integer",
            "IEEE-754 equality on bit patterns (float_eq) and exact int/float comparison (float_as_int); tied to "
@@ -1369,6 +1388,11 @@ def _run(ctx):
     quick = ctx.tier == "quick"
     _tick("start")
     rng = ctx.rng
+    if os.environ.get("C09_ONLY") == "fold":          # development aid: part (c) alone
+        err = C09_fold.run(ctx)
+        if err is not None:
+            ctx.corr_break("module c09fold", "c09fold", str(err[1])[-1500:], "builds and runs")
+        return
     model = ctx.model("consts")
 
     # ---------------- (a) direct: literals ----------------
@@ -1626,13 +1650,18 @@ def _run(ctx):
     # crash must not hide the other cases)
     h = hex((1 << 15000) + 0xABCDEF)
     negs = [("c09neg1", "-" + h, "literal"), ("c09neg2", "0 - " + h, "folded"), ("c09neg3", "-(" + h + " + 1)", "folded")]
-    with cf.ThreadPoolExecutor(max_workers=min(nmod + len(negs), 8)) as ex:
+    with cf.ThreadPoolExecutor(max_workers=min(nmod + len(negs) + 1, 9)) as ex:
+        # (c) constant folding of expression trees: tree after ConstantFolding vs model, values vs CPython
+        ffut = ex.submit(C09_fold.run, ctx)
         futs = [ex.submit(build_and_compare, ctx, "c09m%d" % i, ch, model) for i, ch in enumerate(chunks)]
         nfuts = [ex.submit(build_and_compare, ctx, nm, [("lit/neg-huge", text)], model) for nm, text, _ in negs]
         for i, f in enumerate(futs):
             err = f.result()
             if err is not None:
                 ctx.corr_break("module c09m%d" % i, "c09m%d" % i, str(err[1])[-1500:], "builds and runs")
+        err = ffut.result()
+        if err is not None:
+            ctx.corr_break("module c09fold", "c09fold", str(err[1])[-1500:], "builds and runs")
         _tick("compiled modules")
         for (nm, text, via), f in zip(negs, nfuts):
             ctx.case("module/lit/neg-huge", text[:40] + "...", sig=("neghuge", nm))
